@@ -653,7 +653,30 @@ func settlementTotals(p *Prog, r *Report, rule string, withCollateral bool) {
 						fromParam = true
 					}
 				}
-				if fromRec || fromParam {
+				// what leaves the total is the whole seized collateral, or the seized collateral less
+				// what the same function credits back to a vault (shutdown returns the unsold part)
+				bad := ""
+				if fromRec {
+					bad = seizedLessReturned(p, fn, x)
+				} else if fromParam {
+					for _, o := range p.DeepOrigins(x) {
+						pr, isP := o.Val.(*ssa.Parameter)
+						if !isP || o.Kind != "param" || pr.Parent() != fn {
+							continue
+						}
+						idx := paramIndex(pr)
+						for _, cs := range p.CallSitesOf(fn) {
+							if cargs := cs.Common().Args; idx < len(cargs) {
+								if why := seizedLessReturned(p, cs.Parent(), cargs[idx]); why != "" {
+									bad = fmt.Sprintf("%s (call at %s)", why, p.instrPos(cs))
+								}
+							}
+						}
+					}
+				}
+				if bad != "" {
+					r.Fail(rule, construct, bad, p.instrPos(c), nil)
+				} else if fromRec || fromParam {
 					r.OK(rule, construct, "reduced by a recorded collateral amount", p.instrPos(c))
 				} else {
 					r.Fail(rule, construct, "the published collateral total is reduced by a value that does not come from the recorded collateral of the seized position", p.instrPos(c), nil)
@@ -780,4 +803,44 @@ func paramOnly(p *Prog, v ssa.Value, fn *ssa.Function) bool {
 		}
 	}
 	return true
+}
+
+// seizedLessReturned: x is a recorded seized-collateral amount, possibly less an amount that
+// fn credits back to a vault; anything else subtracted from it is reported.
+func seizedLessReturned(p *Prog, fn *ssa.Function, x ssa.Value) string {
+	op, _, sub, ok := addSubOf(x)
+	if !ok || op != "Sub" {
+		return ""
+	}
+	credited := map[string]bool{}
+	create := p.byName["x/vault/keeper.Keeper.CreateNewVault"]
+	for _, b := range fn.Blocks {
+		for _, in := range b.Instrs {
+			switch y := in.(type) {
+			case *ssa.Store:
+				base, path := addrBase(y.Addr)
+				if len(path) > 0 && path[0] == "AmountIn" && namedTypeName(base.Type()) == "Vault" {
+					if op2, _, amt, ok2 := addSubOf(y.Val); ok2 && op2 == "Add" {
+						credited[p.ExprKey(amt)] = true
+					}
+				}
+			case ssa.CallInstruction:
+				if create != nil && p.callIsFn(y, create) {
+					if args := callArgs(y); len(args) >= 5 {
+						credited[p.ExprKey(args[4])] = true
+					}
+				}
+			}
+		}
+	}
+	keys := []string{p.ExprKey(sub)}
+	if strings.HasSuffix(sub.Type().String(), "types.Coin") {
+		keys = append(keys, p.amountKeys(sub)...)
+	}
+	for _, k := range keys {
+		if credited[k] {
+			return ""
+		}
+	}
+	return fmt.Sprintf("the published collateral total is reduced by the seized collateral less %v, but this function credits no vault with that amount: collateral that leaves the product (returned to the owner's account) stays in the published total", keys)
 }
